@@ -847,6 +847,9 @@ fn adapter_fact_checks(l: &[char]) -> Vec<(&'static str, bool)> {
     {
         let m0 = mn(l);
         out.push(("adapternp", !n.contains(&'\u{200F}') && !m0.contains(&'\u{200F}')));
+        // AdapterUSV (Proofs/Idna_WalkEnc.v): both normalizers yield Unicode scalar values (true by type: `char`)
+        let usv = |c: &char| { let u = *c as u32; u < 0xD800 || (0xE000..0x11_0000).contains(&u) };
+        out.push(("adapterusv", n.iter().all(usv) && m0.iter().all(usv)));
     }
     // H1 (ok_ascii): on ASCII text map_normalize is ASCII lower-casing
     if l.iter().all(|c| c.is_ascii()) {
@@ -926,7 +929,7 @@ fn adapter_facts(rep: &mut Report, rng: &mut Rng, thorough: bool, sources: &[Str
         }
     }
     rep.notes.push(format!(
-        "adapter premises sampled on the real idna_adapter: {} texts, {} fact instances (nvnotrunc, adapternp, ok_ascii, ok_case, ok_stable, ok_mn_idem, ok_fffd, ok_nv_idem; H0 = the empty text is among them)",
+        "adapter premises sampled on the real idna_adapter: {} texts, {} fact instances (nvnotrunc, adapternp, adapterusv, ok_ascii, ok_case, ok_stable, ok_mn_idem, ok_fffd, ok_nv_idem; H0 = the empty text is among them)",
         texts.len(),
         n
     ));
